@@ -112,10 +112,22 @@ func VerifHolding() {
 			rates[t] = vrt.URange("rate", 0, 1<<40)
 		}
 	}
+	sprOnlyLast := c >= specV20 && vrt.Choose("lastRatedByStakingOnly", 2) == 1
 	// setup: the committed chain state before block c, then block c's own rate rows (as
 	// InsertRates records them before the holding pass), on a given database
 	setup := func(db *sql.DB) (*Pegnetd, *sql.Tx) {
 		d := vrtNodeOn(db)
+		// winner rows of the rated blocks: the older one was graded by the miners' records; the last
+		// one as well - or, from 2.0 on, it may have been rated by the staking records alone
+		for _, wh := range []uint32{last - 3, last} {
+			if wh == last && sprOnlyLast {
+				continue
+			}
+			if _, err := db.Exec(`INSERT INTO pn_winners (height, entryhash, oprhash, payout, grade, nonce, difficulty, position, minerid, address) VALUES (?, ?, ?, ?, ?, ?, ?, ?, ?, ?)`,
+				wh, []byte{1}, []byte{2}, 0, 0.0, []byte{3}, []byte{4}, 0, "m", []byte{5}); err != nil {
+				panic(err)
+			}
+		}
 		for _, t := range assets {
 			// an older rated block, outside the averaging window of `last` (period 3)
 			if _, err := db.Exec("INSERT INTO pn_rate (height, token, value) VALUES ($1, $2, $3)", last-3, t.String(), 100000000); err != nil {
